@@ -3,6 +3,7 @@
 package circuitbreaker
 
 import (
+	"errors"
 	"time"
 
 	"github.com/bits-and-blooms/bitset"
@@ -202,6 +203,8 @@ func zzPct(a, n uint) uint {
 	}
 	return (200*a + n) / (2 * n)
 }
+
+var zzErrBreaker = errors.New("breaker-test")
 
 type zzRes struct {
 	ok    bool
@@ -431,7 +434,13 @@ func ZZ_H03g_History() {
 		}
 		t += dt
 		clk.t = t
-		switch zzvrt.Choose("op", 6) {
+		switch zzvrt.Choose("op", 6+zzvrt.Param("record_ops", 0)) {
+		case 6:
+			cb.RecordError(zzErrBreaker) // classified by the default condition: any error is a failure
+			ref.record(false, t)
+		case 7:
+			cb.RecordResult(5) // no error, no matching handle condition: a success
+			ref.record(true, t)
 		case 0:
 			cb.RecordSuccess()
 			ref.record(true, t)
